@@ -76,6 +76,8 @@ class Context:
         self.apps = {}
         self.iroots = {}
         self.axiom_generators = []
+        self._axiom_keys = set()
+        self.gen_state = {}  # per-generator progress (incremental instantiation)
         self._gen_seen = set()
         self.fork_roots = False
         self.nested_leaves = 0
@@ -164,6 +166,13 @@ class Context:
         self.solver.add(t)
         self._keep_model(t)
 
+    def axiom_once(self, key, t):
+        """add an axiom unless the same key was already added on this path (nested enumerations re-add after their pop)"""
+        if key in self._axiom_keys:
+            return
+        self._axiom_keys.add(key)
+        self.axiom(t)
+
     def register_app(self, name, args, res, unary):
         key = (name, tuple(a.hash() for a in args), tuple(str(a) for a in args) if len(args) < 3 else None)
         if key in self._app_keys:
@@ -176,11 +185,8 @@ class Context:
     def instantiate(self):
         for gen in self.axiom_generators:
             for f in gen():
-                h = f.hash()
-                if h not in self._gen_seen:
-                    self._gen_seen.add(h)
-                    self.solver.add(f)
-                    self.model = None
+                self.solver.add(f)
+                self.model = None
         n = sum(len(v) for v in self.apps.values())
         if n == self._inst_done:
             return
@@ -332,7 +338,8 @@ class Context:
         stack = [[]]
         saved = (self.prefix, self.trace, self.pending, self.twosided)
         saved_apps = ({k: list(v) for k, v in self.apps.items()}, set(self._app_keys), dict(self.iroots), self._inst_done)
-        saved_gen = set(self._gen_seen)
+        saved_gen = {k: list(v) for k, v in self.gen_state.items()}
+        saved_keys = set(self._axiom_keys)
         pc_mark, ax_mark = len(self.pc), len(self.axioms)
         try:
             while stack:
@@ -342,6 +349,7 @@ class Context:
                 self.solver.push()
                 self.prefix, self.trace, self.pending = sub, [], []
                 self.model = None
+                _clear_rpylib_caches()  # a memoised result would skip decisions on re-execution and misalign the replayed prefix
                 val = exc = None
                 try:
                     val = fn()
@@ -356,7 +364,9 @@ class Context:
                     del self.pc[pc_mark:]
                     del self.axioms[ax_mark:]
                     self.solver.pop()
-                    self._gen_seen = set(saved_gen)
+                    self._axiom_keys = set(saved_keys)
+                    self.gen_state.clear()
+                    self.gen_state.update({k: list(v) for k, v in saved_gen.items()})
                     self.apps, self._app_keys, self.iroots, self._inst_done = (
                         {k: list(v) for k, v in saved_apps[0].items()}, set(saved_apps[1]), dict(saved_apps[2]), saved_apps[3])
                 stack.extend(self.pending)
@@ -393,6 +403,12 @@ class Context:
         elif r == z3.unknown:
             rec["verdict"] = "unknown"
             rec["reason"] = self.solver.reason_unknown()
+            covered = [n for n, p in (regions or {}).items() if (oid, n) in self.known and p is True]
+            if covered:
+                # every possible counterexample of this obligation lies inside a listed known-finding region (the region predicate
+                # is concretely true for this harness instance): nothing outside the region can be reported, whatever the solver says
+                rec["verdict"] = "unknown_in_known_region"
+                rec["known"] = covered
         else:
             m = self.solver.model()
             rec["verdict"] = "sat"
@@ -472,7 +488,7 @@ class Context:
         self.instantiate()
         if timeout_ms:
             self.solver.set("timeout", timeout_ms)
-        r = self._check(*[V._bterm(t) for t in terms])
+        r = self._check(*[t.t if hasattr(t, "t") and isinstance(t.t, z3.BoolRef) else V._bterm(t) for t in terms])
         m = self.solver.model() if r == z3.sat else None
         if timeout_ms:
             self.solver.set("timeout", self.timeout_ms)
